@@ -12,6 +12,12 @@ Correspondence (implementation vs extracted Coq model, same input):
     DBCELL / BLANK / MULBLANK around the row blocks, both DIMENSIONS widths), the model reading the
     very same substream bytes; the same substreams through the RecordIter hook; plus malformed
     substreams (truncation, unsorted rows, bad DIMENSIONS, stray / missing STRING records).
+  * shared strings end to end (run_sst_files, corpus sst-*): workbooks whose SST spills into CONTINUE
+    records with cuts between strings, inside character data (fresh flag byte, also inside a
+    surrogate pair), inside rgRun and inside ExtRst (no flag byte), rich / phonetic strings, natural
+    cuts at the 8224-byte limit; every string referenced by LABELSST cells; the model gets the
+    LOGICAL strings as its environment (the SST decoding theorem is C12's C12_sst_any_split; this
+    family ties the composition parse_sst -> parse_label_sst -> range to the real code).
 Search oracle (implementation vs specification): an independent Python reading of the property
 (exact rational RK values, IEEE division for x/100, bounding box + dictionary), and the Coq
 spec range_of (logical c) printed by the model driver; the Coq encoder's bytes must equal
@@ -32,6 +38,7 @@ ASSUMPTIONS = [
     "allocation (cells.reserve from DIMENSIONS, the dense range) is not modelled; generated bounding boxes stay below 2^18 cells",
     "records between a FORMULA and its STRING are of types the sheet loop ignores (SHRFMLA, ARRAY, TABLE, any non-interpreted type); an ARRAY / SHRFMLA body itself continued in CONTINUE records is not in the layout type (the framing of such runs is exercised by the recs cases)",
     "a FormulaValue that announces a string with no STRING record after it is treated as malformed (no value cell; model = implementation), not as a legal layout",
+    "the shared-string table is an environment of the Coq sheet model (e_strings = the logical strings); its decoding across CONTINUE records is C12's theorem C12_sst_any_split, and the generated files with rich / phonetic strings and cuts inside characters, rgRun and ExtRst tie the composition parse_sst -> parse_label_sst -> range to the real code",
 ]
 TMP = os.path.join(vlib.CACHE, "tmp", "c02")
 ERRS = [0x00, 0x07, 0x0F, 0x17, 0x1D, 0x24, 0x2A, 0x2B]          # cerr order of RK.v
@@ -782,7 +789,9 @@ def wb_for(env, sheets):
                 xfs.append(165)
     wb = {"date1904": env["d1904"], "xfs": xfs, "formats": formats, "sheets": sheets}
     if env["strings"] or env["force_sst"]:
-        wb["sst"] = env["strings"]
+        # the physical SST: plain strings, or entries with an explicit layout (rich runs, ExtRst,
+        # CONTINUE cuts) denoting the same logical strings
+        wb["sst"] = env.get("sst_entries") or env["strings"]
     return wb
 
 def gen_env(rng):
@@ -813,16 +822,146 @@ def dims_choice(rng, cells):
         return ("narrow", rf, rl2, cf, cl2), "D 0 %d %d %d %d" % (rf, rl2, cf, cl2)
     return (rf, rl2, cf, cl2), "D 1 %d %d %d %d" % (rf, rl2, cf, cl2)
 
-def run_files(ctx, n_files, tag):
+# ------------------------------------------------------------------ shared strings spilling into CONTINUE records
+def sst_units(rng, n, kind):
+    if kind == "ascii":
+        return [rng.randrange(0x20, 0x7F) for _ in range(n)]
+    if kind == "latin1":
+        return [rng.choice([rng.randrange(0x20, 0x7F), rng.randrange(0xA0, 0x100)]) for _ in range(n)]
+    if kind == "bmp":
+        return [rng.choice([rng.randrange(0x20, 0x7F), rng.randrange(0x100, 0x800), rng.randrange(0x4E00, 0x9FFF),
+                            0xFEFF, 0xFFFE, 0x20AC]) for _ in range(n)]
+    us = []                                        # astral: valid surrogate pairs among BMP characters
+    while len(us) < n:
+        if rng.random() < 0.5 and len(us) + 2 <= n:
+            cp = rng.choice([0x1F600, 0x10000, 0x10FFFF, rng.randrange(0x10000, 0x110000)]) - 0x10000
+            us += [0xD800 + (cp >> 10), 0xDC00 + (cp & 0x3FF)]
+        else:
+            us.append(rng.choice([rng.randrange(0x20, 0x7F), rng.randrange(0x100, 0x3000)]))
+    return us
+
+def sst_entry(rng, units, cutty):
+    """one SST entry with a random legal physical layout (xlsgen dict form)"""
+    n = len(units)
+    e = {"units": units, "wide": True if rng.random() < 0.4 else None}
+    if rng.random() < 0.45:
+        e["runs"] = [(min(rng.randrange(0, n + 1), 65535), rng.randrange(0, 12)) for _ in range(rng.choice([0, 1, 2, 3, 6, 20]))]
+    if rng.random() < 0.4:
+        if rng.random() < 0.5:
+            e["ext"] = xlsgen.phonetic_ext(sst_units(rng, rng.choice([0, 1, 3, 8]), rng.choice(["ascii", "bmp"])))
+        else:
+            e["ext"] = bytes(rng.getrandbits(8) for _ in range(rng.choice([0, 1, 4, 12, 60])))
+    if cutty:
+        if n and rng.random() < 0.6:
+            ps = sorted(rng.randrange(0, n) for _ in range(rng.choice([1, 1, 2, 3])))
+            if rng.random() < 0.15:
+                ps.append(ps[0]); ps.sort()
+            pairs = [i for i in range(1, n) if 0xD800 <= units[i - 1] < 0xDC00 and 0xDC00 <= units[i] < 0xE000]
+            if pairs and rng.random() < 0.5:
+                ps.append(rng.choice(pairs)); ps.sort()
+            e["cuts"] = [(p, rng.choice([None, None, True])) for p in ps]
+        tl = 4 * len(e.get("runs") or []) + len(e.get("ext") or b"")
+        if tl and rng.random() < 0.75:
+            ts = sorted(rng.randrange(0, tl) for _ in range(rng.choice([1, 1, 2, 4])))
+            if rng.random() < 0.15:
+                ts.append(ts[0]); ts.sort()
+            e["tail_cuts"] = ts
+        e["cut_before"] = rng.random() < 0.25
+    return e
+
+def gen_sst_case(rng):
+    """(env, [logical sheet]): a workbook whose shared strings have rich / phonetic parts and whose SST
+    is cut by CONTINUE records; every string is referenced by LABELSST cells"""
+    env = gen_env(rng)
+    big = rng.random() < 0.12
+    tbl = []
+    for i in range(rng.choice([2, 3, 4, 6, 9])):
+        kind = rng.choice(["ascii", "latin1", "bmp", "astral"])
+        n = rng.choice([0, 1, 2, 3, 5, 9, 20, 60])
+        if big and i in (0, 2):
+            n = rng.choice([3000, 5000, 8300])           # the 8224-byte limit forces the cuts
+        tbl.append(sst_units(rng, n, kind))
+    cutty = rng.random() < 0.85
+    env["strings"] = [units_text(u) for u in tbl]
+    env["sst_entries"] = [sst_entry(rng, u, cutty) for u in tbl]
+    env["sst_cut"] = None if big else rng.choice([None, None, 16, 24, 40, 100, 1000])
+    env["force_sst"] = True
+    sheets = []
+    for si in range(rng.choice([1, 1, 2])):
+        logical = {}
+        r0, c0 = rng.choice([0, 0, 3, 65535 - len(tbl) - 3]), rng.choice([0, 0, 2, 250])
+        order = list(range(len(tbl)))
+        if si:
+            rng.shuffle(order)
+        for j, ix in enumerate(order):                   # one LABELSST cell per string, in or out of table order
+            logical[(r0 + j, c0 + (j % 3))] = (rng.choice([0, 0, 1]), ("sst", ix))
+        for _ in range(rng.randrange(0, 4)):             # plus a few cells of the other kinds around them
+            p = (r0 + rng.randrange(0, len(tbl) + 2), c0 + 3 + rng.randrange(0, 2))
+            logical[p] = (0, rng.choice([("num", rand_number_bits(rng)), ("label", rand_units(rng)), ("bool", True),
+                                         ("sst", rng.randrange(0, len(tbl) + 2))]))
+        sheets.append(logical)
+    return env, sheets
+
+def run_sst_files(ctx, n_files, tag):
+    run_files(ctx, n_files, tag, make=gen_sst_case)
+
+def sst_boundary_tables():
+    """deterministic tables: a rich string (two FormatRuns), a phonetic string (ExtRst), then plain,
+    empty and non-ASCII strings; ONE cut per file, at every byte offset of rgRun, at every byte
+    offset of ExtRst, before every character (both packings after the cut), before every string;
+    then every cut kind at once"""
+    ext = xlsgen.phonetic_ext("\u30cb\u30db\u30f3")
+    def base():
+        return [{"units": xlsgen.units_of("Hello"), "runs": [(0, 1), (3, 2)]},
+                {"units": xlsgen.units_of("\u65e5\u672c"), "ext": ext},
+                {"units": xlsgen.units_of("plain")}, {"units": []},
+                {"units": xlsgen.units_of("\u00e9\u20ac\U0001F600!"), "runs": [(1, 3)], "ext": bytes([1, 0, 2, 0, 9, 9])}]
+    out = []
+    for t in range(8):
+        b = base(); b[0]["tail_cuts"] = [t]; out.append(("runs@%d" % t, b))
+    for t in range(len(ext)):
+        b = base(); b[1]["tail_cuts"] = [t]; out.append(("ext@%d" % t, b))
+    for t in range(10):
+        b = base(); b[4]["tail_cuts"] = [t]; out.append(("runs+ext@%d" % t, b))
+    for k in (0, 1, 2, 4):
+        for i in range(len(base()[k]["units"])):
+            for w in (None, True):
+                b = base(); b[k]["cuts"] = [(i, w)]; out.append(("chars%d@%d" % (k, i), b))
+    for k in range(1, 5):
+        b = base(); b[k]["cut_before"] = True; out.append(("before%d" % k, b))
+    b = base()
+    b[0].update({"cuts": [(2, None), (2, True)], "tail_cuts": [0, 4, 4]}); b[1].update({"cut_before": True, "tail_cuts": [3, 20]})
+    b[2]["cut_before"] = True; b[4].update({"cuts": [(3, True)], "tail_cuts": [2, 5]})
+    out.append(("all-kinds", b))
+    return out
+
+def run_sst_corpus(ctx):
+    tables = sst_boundary_tables()
+    it = iter(tables)
+    def make(rng):
+        lab, entries = next(it)
+        env = {"fmts": [], "fmt_style": [], "d1904": False, "force_sst": True, "sst_cut": None,
+               "strings": [units_text(e["units"]) for e in entries], "sst_entries": entries}
+        logical = {(j, j % 2): (0, ("sst", j)) for j in range(len(entries))}
+        logical[(len(entries), 0)] = (0, ("sst", 0))
+        return env, [logical]
+    run_files(ctx, len(tables), "ksst", make=make)
+
+def run_files(ctx, n_files, tag, make=None):
     rng = ctx.rng
     os.makedirs(TMP, exist_ok=True)
-    enc_lines, file_lines, meta = [], [], []
+    enc_lines, file_lines, meta, sst_note = [], [], [], {}
     for k in range(n_files):
-        env = gen_env(rng)
-        nsheets = rng.choice([1, 1, 2, 3])
+        if make is not None:
+            env, logicals = make(rng)
+            nsheets = len(logicals)
+        else:
+            env = gen_env(rng)
+            nsheets = rng.choice([1, 1, 2, 3])
+            logicals = None
         sheets, descr = [], []
         for si in range(nsheets):
-            logical = gen_logical(rng, env)
+            logical = logicals[si] if logicals is not None else gen_logical(rng, env)
             cells = choose_layout(rng, env, logical, all_number=(rng.random() < 0.1))
             dspec, ditem = dims_choice(rng, cells)
             name = "S%d" % si
@@ -835,7 +974,19 @@ def run_files(ctx, n_files, tag):
             descr.append((name, logical, cells, dspec, ditem, sh.get("merges")))
         wb = wb_for(env, sheets)
         opts = {"pad_to": rng.choice([0, 0, 4096, 5000]), "cfb": {"version": rng.choice([3, 3, 4])}}
+        if env.get("sst_entries"):
+            stats = {}
+            opts["sst_cut"], opts["sst_stats"] = env.get("sst_cut"), stats
         stream, offs = xlsgen.workbook_stream(wb, opts, rng)
+        if env.get("sst_entries"):
+            ctx.count("sst:files")
+            for kk, v in stats.items():
+                ctx.count("sst:cut-" + kk if kk != "records" else "sst:records", v)
+                if kk != "records":
+                    ctx.count("sst:files-with-cut-" + kk)
+            for e in env["sst_entries"]:
+                if e.get("runs") is not None: ctx.count("sst:rich-strings")
+                if e.get("ext") is not None: ctx.count("sst:ext-strings")
         path = os.path.join(TMP, "%s%d.xls" % (tag, k))
         with open(path, "wb") as f:
             f.write(xlsgen.cfb_wrap([("Workbook", stream)], rng=rng, **opts["cfb"]))
@@ -863,6 +1014,8 @@ def run_files(ctx, n_files, tag):
             else:
                 enc_lines.append("%s\tbiffrec\tenc\t%s\t%s\t%s\t%s\t%s" % (lid, fm, d, st, hx(trailer), ";".join(items) or "-"))
             file_lines.append("%s\tbiffrec\tfile\t%s\t%s" % (lid, path, name.encode().hex()))
+            if env.get("sst_entries"):          # the physical SST of the file, for the report of a failing case
+                sst_note[lid] = "\t#sst(max record body %s): %s" % (env.get("sst_cut") or 8224, sst_descr(env["sst_entries"])[:3000])
             meta.append((lid, env, logical, cells, sub, bool(merges)))
     model = ctx.run_model(enc_lines)
     impl = ctx.run_impl(file_lines)
@@ -909,17 +1062,30 @@ def run_files(ctx, n_files, tag):
                 continue
         why = check_range_against(exp, i)
         if why:
-            ctx.violations.append({"case": file_lines[n] + "\t#items: " + enc_lines[n][:1500], "expected": spec_coq or str(sorted(exp.items()))[:600],
+            ctx.violations.append({"case": file_lines[n] + sst_note.get(lid, "") + "\t#items: " + enc_lines[n][-1500:], "expected": spec_coq or str(sorted(exp.items()))[:600],
                                    "actual": (i or "")[:600], "model": (mm or "")[:600], "what": why})
             continue
         if not same_range(i, mm):
-            ctx.disagreements.append({"function": "sheet_model", "case": file_lines[n] + "\t#" + enc_lines[n][:1500],
+            ctx.disagreements.append({"function": "sheet_model", "case": file_lines[n] + sst_note.get(lid, "") + "\t#" + enc_lines[n][-1500:],
                                       "impl": (i or "")[:600], "model": (mm or "")[:600]})
             continue
         if exp:
             ctx.nontrivial(sub.hex())
         if n < 2:
             ctx.sample({"file_case": enc_lines[n][:300], "impl": (i or "")[:200]})
+
+def sst_descr(entries):
+    out = []
+    for e in entries:
+        u = e["units"]
+        out.append("{%s%s%s%s%s%s}" % (
+            ("units=" + "".join("%04x" % x for x in u[:24]) + ("..(%d)" % len(u) if len(u) > 24 else "")),
+            " runs=%d" % len(e["runs"]) if e.get("runs") is not None else "",
+            " ext=%d" % len(e["ext"]) if e.get("ext") is not None else "",
+            " cuts=%s" % [p for p, _ in e["cuts"]] if e.get("cuts") else "",
+            " tail_cuts=%s" % e["tail_cuts"] if e.get("tail_cuts") else "",
+            " cut_before" if e.get("cut_before") else ""))
+    return " ".join(out)
 
 def run_sheet_records(ctx, meta, tag):
     """the generated substreams through the RecordIter hook (framing of FORMULA / between / STRING /
@@ -1215,12 +1381,14 @@ def run(ctx):
     if not ctx.hooks:
         ctx.notes.append("hooks unavailable: only the file-level cases ran")
     run_corpus(ctx)
+    run_sst_corpus(ctx)
     if ctx.hooks:
         run_rk(ctx)
         run_cells(ctx)
         run_small(ctx)
     run_fdiv(ctx)
     run_files(ctx, ctx.scale(350, 6000), "f")
+    run_sst_files(ctx, ctx.scale(220, 4000), "t")
     run_equiv(ctx, ctx.scale(120, 2000), "q")
     run_malformed_files(ctx, ctx.scale(400, 6000), "m")
     if ctx.tier == "thorough" and ctx.hooks:
@@ -1229,6 +1397,7 @@ def run(ctx):
 
 def search(ctx):
     run_files(ctx, ctx.scale(3000, 20000), "sf")
+    run_sst_files(ctx, ctx.scale(600, 4000), "st")
     run_equiv(ctx, ctx.scale(600, 4000), "sq")
     if ctx.hooks:
         words = rk_words(ctx, ctx.scale(60000, 400000))
